@@ -22,27 +22,45 @@ CPP_MEMBER_NAMES = frozenset(
 """ what the generated classes use unqualified inside their own scope: a member of that name would capture it """
 
 
-def check_cpp_names(nodes, _included=None, generated=None):
+CPP_FULL_RUNTIME_NAMES = frozenset([
+    "array", "optional", "message", "message_impl", "encoder", "decoder", "printer", "align", "align_ptr", "alignment", "nearest",
+    "byte_size", "int2type", "codec_traits", "print_traits", "do_encode", "do_decode", "do_print", "endianness", "detail",
+    "generated", "swap", "discriminator", "encode", "decode", "print", "get_byte_size"
+])
+CPP_FULL_MEMBER_NAMES = frozenset(["array", "optional"])
+""" names of prophy::detail and of the generated classes that the full codec's sources use unqualified """
+
+
+CPP_RAW_RUNTIME_NAMES = frozenset([
+    "swap", "cast", "bool_t", "detail", "align", "align_ptr", "alignment", "swap_n_fixed", "swap_n_dynamic", "discriminator"
+])
+""" names of the raw codec's runtime that its generated sources use unqualified """
+
+
+def check_cpp_names(nodes, _included=None, generated=None, runtime=frozenset(), members=frozenset(), arm_types=False):
     """
     Names the generated C++ resolves in its own scopes first: a schema name equal to one of them compiles and then means
     something else (another array extent in encode, another field type, another enumerator in print, another discriminator
     value). A member named like a type of its own struct (or like the struct) changes the meaning of that name in the C++
     class scope. Each included file is walked once. `generated` matches the names a generator nests into the classes it
-    writes: types and members must not take them (constants and enumerators may).
+    writes: types and members must not take them, nor may a size or discriminator expression of that class use them (other
+    constants and enumerators may have these names). `runtime` and `members` are more names of the kind of CPP_RUNTIME_NAMES
+    and CPP_MEMBER_NAMES; `arm_types` says that a union gets a static member discriminator_<arm>_t next to the enumerator
+    discriminator_<arm>.
     """
     _included = set() if _included is None else _included
     for node in nodes:
         if isinstance(node, model.Include):
             if node.name not in _included:
                 _included.add(node.name)
-                check_cpp_names(node.members, _included, generated)
+                check_cpp_names(node.members, _included, generated, runtime, members, arm_types)
             continue
         names = [node.name]
         if isinstance(node, model.Enum):
             names += [member.name for member in node.members]
         for name in names:
             """ a union holds `enum _discriminator { discriminator_<arm> = ... }` next to the discriminator expressions """
-            if name in CPP_RUNTIME_NAMES or re.match(r"discriminator_\w", name):
+            if name in CPP_RUNTIME_NAMES or name in runtime or re.match(r"discriminator_\w", name):
                 raise GenerateError("'{}' is a name of the C++ runtime: the generated C++ would not mean the schema".format(name))
         if generated and not isinstance(node, model.Constant) and re.match(generated, node.name):
             raise GenerateError("'{}' is a name of the C++ runtime: the generated C++ would not mean the schema".format(node.name))
@@ -54,9 +72,18 @@ def check_cpp_names(nodes, _included=None, generated=None):
                 if isinstance(definition, model.Enum) and definition.members:
                     types.add(definition.members[0].name)
             for member in node.members:
-                if member.name in types or member.name in CPP_MEMBER_NAMES or generated and re.match(generated, member.name):
+                if member.name in types or member.name in CPP_MEMBER_NAMES or member.name in members or \
+                        generated and re.match(generated, member.name):
                     raise GenerateError("member '{}' of {} is named like a type of that scope or a name of the C++ runtime"
                                         .format(member.name, node.name))
+            """ a size or discriminator expression is written inside the class: its names are looked up there first """
+            texts = [getattr(member, attribute, None) for member in node.members for attribute in ("size", "discriminator")]
+            member_names = set(member.name for member in node.members)
+            for name in re.findall(r"[A-Za-z_]\w*", " ".join(text for text in texts if isinstance(text, type(u"")) or isinstance(text, str))):
+                if name in member_names or generated and re.match(generated, name):
+                    raise GenerateError("'{}' in an expression of {} is the name of a member of the generated class".format(name, node.name))
+            if arm_types and isinstance(node, model.Union) and any(name + "_t" in member_names for name in member_names):
+                raise GenerateError("arms of {} are named <x> and <x>_t: the generated names discriminator_<x>_t collide".format(node.name))
 
 
 def _write_file(file_path, string):
